@@ -50,7 +50,7 @@ Definition set_args (l : lost) (g k : N) : lost := mkLo g k (base l) (found l) (
 Definition do_act (a : act) (s : shst) (l : lost) : shst * lost :=
   let g := ag l in let k := ak l in
   match a with
-  | XLocal | XRead | XMutOther | XNewLock => (s, l)   (* XNewLock is rejected by every automaton: never executed by an accepted program *)
+  | XLocal | XRead | XMutOther | XNewLock | XAcqFail => (s, l)   (* XNewLock is rejected by every automaton: never executed by an accepted program *)
   | XTest c => (s, set_found l (existsb (fun n => (ncell n =? cellof c g) && (ngid n =? g)) (nodes s)))
   | XRdBase c => (s, set_base l (getc (ctrs s) (cellof c g)))
   | XBase1 => (s, set_base l 1)
@@ -64,6 +64,9 @@ Definition do_act (a : act) (s : shst) (l : lost) : shst * lost :=
   | XReplace c => (set_nodes s (range_nodes (cellof c g) (base l) k g ++ filter (fun n => negb (del_pred c g n)) (nodes s)), l)
   | XRetCtrM1 c => (s, add_ret l (getc (ctrs s) (cellof c g) - 1))
   | XRetBase => (s, add_ret l (base l))
+  | XBaseLen c => (s, set_base l (count_cell (cellof c g) (nodes s) + 1))
+  | XSetCtrBase1 c => (set_ctr s (cellof c g) (base l + 1), l)
+  | XRemove c => (set_nodes s (filter (fun n => negb ((ncell n =? cellof c g) && (nid n =? k))) (nodes s)), l)
   end.
 
 Definition cond_mismatch (c : cond) (fnd b : bool) : bool :=
@@ -133,13 +136,13 @@ Definition csel_eqb (a b : cellsel) : bool :=
 
 Definition neutral_in (c : cellsel) (a : act) : bool :=
   match a with
-  | XLocal | XRead | XTest _ | XMutOther | XRetBase => true
+  | XLocal | XRead | XTest _ | XMutOther | XRetBase | XAcqFail => true
   | XRetCtrM1 c' => csel_eqb c c'
   | _ => false
   end.
 
 Definition free_act (a : act) : bool :=      (* allowed without the lock *)
-  match a with XLocal | XRead | XTest _ | XBase1 | XRetBase => true | _ => false end.
+  match a with XLocal | XRead | XTest _ | XBase1 | XRetBase | XAcqFail => true | _ => false end.
 
 Definition data_act (c : cellsel) (a : N) (x : act) : option N :=
   if a =? 0 then (if free_act x then Some 0 else None)
@@ -201,6 +204,17 @@ Definition ocall := (string * N * N * path * list (N * N) * N)%type.
 Definition ccase := (bool * list (list ocall) * list N * (list (N * N) * list node * list (list N)))%type.
 
 Definition methods_of (disj : bool) : list (string * stmt) := if disj then disjoint_methods else shared_methods.
+(* actions of callers that are not store methods: removal of node k of graph g from the stored graph, directly
+   (`remove_node`) or through NetworkXPropertyGraph.delete_node, which on the disjoint store first goes twice
+   through the locked get_graph (receiver and _find_node); run untraced by the harness, hence line 0 *)
+Definition ext_methods (disj : bool) : list (string * stmt) :=
+  let c := if disj then CArg else CGlobal in
+  let rm := SAct 0 (XRemove c) FNever in
+  [("remove_node"%string, rm);
+   ("delete_node"%string,
+    if disj then SSeq (SAcq 0) (SSeq (SRel 0) (SSeq (SAcq 0) (SSeq (SRel 0) rm))) else rm)].
+Definition methods_all (disj : bool) : list (string * stmt) := methods_of disj ++ ext_methods disj.
+
 Definition lookup (ms : list (string * stmt)) (name : string) : option stmt :=
   match find (fun m => String.eqb (fst m) name) ms with Some m => Some (snd m) | None => None end.
 
@@ -248,14 +262,14 @@ Definition final_ok (S : cst) (o : list (N * N) * list node * list (list N)) : b
 
 Definition check_case (c : ccase) : bool :=
   let '(disj, ths, sched, o) := c in
-  let ms := methods_of disj in
+  let ms := methods_all disj in
   forallb (forallb (call_ok ms)) ths
   && final_ok (run_sched (init (map (fun th => flatten AllFaults (map (to_call ms) th)) ths)) (map N.to_nat sched)) o.
 
 (* what the model computes for a case (printed into replays) *)
 Definition model_final (c : ccase) : list (N * N) * list node * list (list N) * bool :=
   let '(disj, ths, sched, _) := c in
-  let ms := methods_of disj in
+  let ms := methods_all disj in
   let S := run_sched (init (map (fun th => flatten AllFaults (map (to_call ms) th)) ths)) (map N.to_nat sched) in
   (ctrs (sh S), nodes (sh S), map (fun t => rets (snd t)) (thr S), bad S).
 
